@@ -222,6 +222,11 @@ func (m *Module) WriteGlue() {
 		if !cr.Generated {
 			continue
 		}
+		for p, body := range cr.Case.PostFiles {
+			full := filepath.Join(cr.Dir, p)
+			os.MkdirAll(filepath.Dir(full), 0o755)
+			os.WriteFile(full, []byte(body), 0o644)
+		}
 		for i, cv := range cr.Case.Convs {
 			if cv.Spec == nil {
 				continue
@@ -290,7 +295,7 @@ func (m *Module) RunBatch(race bool, timeout time.Duration) error {
 	var built []*CaseRun
 	for _, cr := range m.Cases {
 		if cr.Built {
-			n := 0
+			n := len(cr.Case.GluePkgs)
 			for _, cv := range cr.Case.Convs {
 				if cv.Spec != nil {
 					n++
@@ -317,6 +322,11 @@ func (m *Module) RunBatch(race bool, timeout time.Duration) error {
 			}
 			alias := fmt.Sprintf("%s_g%d", cr.Case.Name, i)
 			fmt.Fprintf(&sb, "\t%s \"vcase/%s/glue%d\"\n", alias, cr.Case.Name, i)
+			gls = append(gls, gl{alias, cr.Case.Name})
+		}
+		for i, gp := range cr.Case.GluePkgs {
+			alias := fmt.Sprintf("%s_x%d", cr.Case.Name, i)
+			fmt.Fprintf(&sb, "\t%s \"vcase/%s/%s\"\n", alias, cr.Case.Name, gp)
 			gls = append(gls, gl{alias, cr.Case.Name})
 		}
 	}
